@@ -852,6 +852,36 @@ def _interval_contains(ctx, sb, r_same):
             r_same.violations.append(Violation('C11', 'C11.same', sb.path, 'cmp:' + which,
                                                'containment test compares the %s bound with %s' % ('lower' if which == '0' else 'upper', op),
                                                loc=fn.loc(bi, si), ordinal=n_cmp))
+    # `(lower..=upper).contains(&value)`: one call stands for `value >= start && value <= end`
+    for bi, t in sb.calls():
+        if (t['func'].get('path') or '') not in ('std::ops::RangeInclusive::<Idx>::contains', 'std::ops::Range::<Idx>::contains') or len(t['args']) != 2:
+            continue
+        rg = strip_clone(fn.arg_terms(t, 0, bi))
+        if len(rg) != 1:
+            continue
+        g = next(iter(rg))
+        ends = None
+        if g[0] == 'call' and g[1].endswith('::new') and 'RangeInclusive' in g[1] and len(g[2]) == 2:
+            ends = (g[2][0], g[2][1])
+        elif g[0] == 'agg' and g[1] in ('std::ops::RangeInclusive', 'std::ops::Range'):
+            dd = dict(g[3])
+            if 'start' in dd and 'end' in dd:
+                ends = (dd['start'], dd['end'])
+        if ends is None:
+            continue
+        for pos, e in enumerate(ends):
+            rd = list(bound_reads(e))
+            if len(rd) != 1:
+                continue
+            n_cmp += 1
+            which = rd[0][2]
+            ok = which == str(pos)
+            r_same.inst('%s: range test uses bounds.%s as its %s' % (sb.path, which, 'start' if pos == 0 else 'end'), ok=ok, site=fn.loc(bi))
+            if not ok:
+                r_same.violations.append(Violation('C11', 'C11.same', sb.path, 'cmp:' + which,
+                                                   'containment range is built with the %s bound as its %s' % (
+                                                       'lower' if which == '0' else 'upper', 'start' if pos == 0 else 'end'),
+                                                   loc=fn.loc(bi), ordinal=n_cmp))
     if n_cmp < 2:
         r_same.violations.append(Violation('C11', 'C11.same', sb.path, 'no-cmp',
                                            'fewer than two comparisons against bounds.0/bounds.1 in the bounds check (unrecognised shape)', loc=sb.loc(0)))
@@ -1148,7 +1178,12 @@ def _accept(ctx, prim):
             ok = bad is None
             r.inst('%s: satisfies_bounds accepts a state whose value is the stored %s bound' % (adt.rsplit('::', 1)[1], case), ok=ok, site=sb.loc(0))
             if not ok:
-                why = ', '.join('%s %s %s is %s' % (fmt_terms(a[2])[:40], a[1], fmt_terms(a[3])[:30], tv) for a, tv in bad[0].items())
+                def _fa(a, tv):
+                    try:
+                        return '%s %s %s is %s' % (fmt_terms(a[2])[:40], a[1], fmt_terms(a[3])[:30], tv)
+                    except Exception:
+                        return '%s is %s' % (str(a)[:70], tv)
+                why = ', '.join(_fa(a, tv) for a, tv in bad[0].items())
                 r.violations.append(Violation(
                     'C11', 'C11.accept', sb.path, 'left:' + case,
                     'enforce_bounds can leave the stored %s bound in the state, but the bounds check cannot be shown to accept it: the check '
